@@ -219,7 +219,7 @@ def make_items(ctx: Ctx, count: int, start: int):
         d = specgen.generate(rng, allow=trig, prof={"opid_shapes": True, "p_stream": 0.5 if "stream_with_secondary_2xx" in trig else 0.12,
                                                      "p_multi2xx": 0.8 if "stream_with_secondary_2xx" in trig else 0.25,
                                                      "p_multi_media": 0.1, "p_multi_response_media": 0.15, "json_media_variants": True,
-                                                     "p_nullable_response": 0.15, "p_component_refs": 0.25})
+                                                     "p_nullable_response": 0.15, "p_component_refs": 0.25, "p_range_2xx": 0.08})
         if rng.random() < 0.25:
             # one tag spelled in several ways (case / punctuation / word split): endpoints, client and mocks must agree
             fam = rng.choice([["petstore", "petStore", "PetStore"], ["DataSources", "datasources", "data_sources"], ["users", "Users", "USERS"]])
